@@ -223,7 +223,10 @@ claim('C04',
       'with a SerialException injectable at every port call, nothing is transmitted after an '
       'error was recorded. D5: no store to .err/.port and no port I/O outside the class family, '
       'no reflective attribute stores. D6: disconnect leaves port None on every path including a '
-      'failing close(). Because each method is decided from every state, the statement follows '
+      'failing close(). D7: a failing exchange (device error reply, unexpected reply, timeout, '
+      'USB exception) ends with an error recorded and the failure value - the verdicts of the '
+      'C05 exchange analysis on the primitives, taken over per construct (skipped when that '
+      'analysis cannot be carried out on the tree). Because each method is decided from every state, the statement follows '
       'for every sequence of calls by induction on the history. Not decided: behaviour of the '
       'pyserial object itself.',
       'Trusted: Python ast, vf/interp.py, vf/ebb3.py; assumption: the serial object is reached '
